@@ -424,7 +424,14 @@ def alt_freeze(ctx):
     kf, ev, pa = kernel_eval(ctx, False)
     A = ev.A
     rk1 = next(iter({k[0] for k in pa['vel'].stores}))
-    rk0 = next(iter({rk for rk, _, _ in pa['lla'].load_log if rk != rk1}))
+    # current row: the row the kernel loads its state from (the most frequent load row; a
+    # stray load of another row - e.g. row 0 - must not be mistaken for it)
+    cnt = {}
+    for rk, _, _ in pa['lla'].load_log + pa['vel'].load_log:
+        if rk != rk1:
+            cnt[rk] = cnt.get(rk, 0) + 1
+    ctx.need(cnt, 'kernel loads no state row')
+    rk0 = max(sorted(cnt), key=lambda k: cnt[k])
     vd = pa['vel'].stores.get((rk1, 2))
     node = [n for rk, idx, v, n in pa['vel'].store_log if idx == (2,)][-1]
     ctx.ob('ALT-FREEZE', vd is not None and A.is_zero(ev.expand(vd)), None,
@@ -442,7 +449,9 @@ def alt_freeze(ctx):
         okalt = A.eq(full, A.sym('%s[%s,2]' % (pa['lla'].name, rk0)))
     ctx.ob('ALT-FREEZE', okalt, None, 'kernel: altitude[j+1] = altitude[j] given stored VD = 0',
            f=kf, node=node, key='kernel-alt',
-           why='kernel changes altitude even when the stored vertical velocity is zero')
+           why='kernel does not copy the altitude of the current row when the stored vertical '
+               'velocity is zero (it changes it, or takes it from another row such as row 0: '
+               'after set_pva with a new altitude the old one comes back)')
     # (b) constructor
     init = c.methods['__init__']
     ev2 = SymEval(repo, Alg(), hooks=_IH())
